@@ -41,6 +41,7 @@ func lockChild(en *Env) {
 	slots := map[int]*kv.DB{}
 	parkedClose := map[int]*pclose{}
 	parkedOpen := map[int]*pclose{}
+	stale := map[int]*kv.DB{} // slot -> the handle it closed last
 	in := bufio.NewReader(os.Stdin)
 	out := bufio.NewWriter(os.Stdout)
 	for {
@@ -219,8 +220,18 @@ func lockChild(en *Env) {
 			if db := slots[slot]; db != nil {
 				name = h.Guard(h.CallTimeout, func() error { return db.Close() })
 				delete(slots, slot)
+				stale[slot] = db
 			}
 			fmt.Fprintf(out, "res %s\n", name)
+		case "reclose":
+			// reclose <slot>: Close is called once more on the handle that this slot closed last (a second Close of a
+			// closed database changes nothing - in particular not the lock somebody else may hold by now)
+			slot, _ := strconv.Atoi(f[1])
+			name := "nohandle"
+			if db := stale[slot]; db != nil {
+				name = h.Guard(h.CallTimeout, func() error { return db.Close() })
+			}
+			fmt.Fprintf(out, "res %s\n", strings.ReplaceAll(name, " ", "_"))
 		}
 		out.Flush()
 	}
@@ -313,6 +324,7 @@ func profDirLock(en *Env) {
 		}
 		en.T.Emit(h.Ev{"ev": "reset", "corrupt": false, "fresh": fresh})
 		open := map[int]bool{} // opener id -> believed open (mechanics: which close commands make sense)
+		closedOnce := map[int]bool{} // opener id -> has a handle that it closed (in this directory)
 		race := func() {
 			// racing Opens from a barrier (one closed goroutine slot of every process)
 			var os_ []int
@@ -367,6 +379,28 @@ func profDirLock(en *Env) {
 			g := r.Intn(2)
 			o := (p+1)*10 + g
 			switch x := r.Intn(100); {
+			case x < 12 && !open[o] && closedOnce[o] && len(open) > 0:
+				// a second Close on a handle that was closed earlier, while somebody else has the directory open by now;
+				// then an attempt by a third opener: the directory is still in use
+				kids[p].send("reclose %d", g)
+				res := kids[p].recv()
+				en.T.Emit(h.Ev{"ev": "lk", "o": o, "act": "reclose", "res": res, "same": true})
+				for j := 1; j < len(kids); j++ {
+					p2 := (p + j) % len(kids)
+					o2 := (p2+1)*10 + 1 - g
+					if open[o2] || open[(p2+1)*10+g] {
+						continue
+					}
+					before := fingerprint(dir)
+					kids[p2].send("open %d %s", 1-g, dir)
+					res2 := kids[p2].recv()
+					en.T.Emit(h.Ev{"ev": "lk", "o": o2, "act": "open", "res": res2, "same": before == fingerprint(dir)})
+					attempts++
+					if res2 == "ok" {
+						open[o2] = true
+					}
+					break
+				}
 			case x < 50 && !open[o]:
 				before := fingerprint(dir)
 				kids[p].send("open %d %s", g, dir)
@@ -385,6 +419,8 @@ func profDirLock(en *Env) {
 				en.T.Emit(h.Ev{"ev": "died", "p": p + 1})
 				delete(open, o)
 				delete(open, (p+1)*10+1-g)
+				delete(closedOnce, o) // (the new process has no handles of the old one)
+				delete(closedOnce, (p+1)*10+1-g)
 				if nk := startChild(en); nk != nil {
 					kids[p] = nk
 				} else {
@@ -468,6 +504,7 @@ func profDirLock(en *Env) {
 				res := kids[p].recv()
 				en.T.Emit(h.Ev{"ev": "lk", "o": o, "act": "close", "res": res, "same": true})
 				delete(open, o)
+				closedOnce[o] = res == "ok"
 			case x < 88 && len(open) == 0 && !fresh && len(orig) > 20:
 				// damage / repair the directory while nobody has it open; the damage makes Open fail in one of
 				// its three loading phases (DirLock.tla): listing the names, opening the files, reading the records
